@@ -88,8 +88,8 @@ for d in sorted(glob.glob("/tmp/seeded-out/*/")):
     res = run(f"{dst}/patch.diff", [prop] + (related.get(prop, []) if os.environ.get("WITH_RELATED") else []))
     notes = open(f"{d}/notes.md").read()
     meta = {
-        "id": name, "breaks_property": prop, "origin": "independent sub-agent given only the property text and a scratch worktree" + (" (second round: asked to be invisible on graphs with fewer than 5 nodes and histories of fewer than 6 operations)" if name.endswith("-3") else " (later round: asked for a change that a strong randomized / small-scope harness with integer payloads, graphs up to 40-1100 nodes and long histories would still miss)" if name.endswith("-4") or name.endswith("-5") else ""),
-        "origin_short": "sub-agent, round 6" if name.endswith("-6") else "sub-agent, round 2" if name.endswith("-3") else "sub-agent, round 3+" if name.endswith("-4") or name.endswith("-5") else "sub-agent, round 1",
+        "id": name, "breaks_property": prop, "origin": "independent sub-agent given only the property text and a scratch worktree" + (" (second round: asked to be invisible on graphs with fewer than 5 nodes and histories of fewer than 6 operations)" if name.endswith("-3") else " (later round: asked for a change that a strong randomized / small-scope harness with integer payloads, graphs up to 40-1100 nodes and long histories would still miss)" if name.endswith("-4") or name.endswith("-5") else " (seventh round: told the harness has integer and string payloads, 8000-entry adjacency lists, 70000-node chains, long histories, builder reuse, iterator adapters, in-callback mutation and nested searches in filters, and asked for a realistic change it would still miss)" if name.endswith("-7") else ""),
+        "origin_short": "sub-agent, round 7" if name.endswith("-7") else "sub-agent, round 6" if name.endswith("-6") else "sub-agent, round 2" if name.endswith("-3") else "sub-agent, round 3+" if name.endswith("-4") or name.endswith("-5") else "sub-agent, round 1",
         "missed_at_first": MISSED.get(name),
         "needs_to_manifest": "see notes.md (written by the author of the change)",
         "confirmed_by_me": {"how": "tools/confirm_seeded.sh in a scratch worktree of /repo: git apply; cargo test --offline --no-fail-fast (80 tests + 118 doctests) with tests/seeded_demo.rs added; then without the patch", **conf},
